@@ -109,6 +109,7 @@ func init() {
 			g := &gen.G{R: ctx.Rng}
 			g.O = c02Opts(ctx.Rng, ctx.Tier)
 			g.O.ErrPlants = false
+			g.O.Big = g.O.Big && i%4 == 0 // (every write of every render is failed in turn: large outputs are kept rare here)
 			prog := g.Bundle(1+ctx.Rng.Intn(2), 2+ctx.Rng.Intn(3))
 			if i%10 == 0 {
 				// a tag-heavy message as the very last command of a one-template file: the pieces a message body is
@@ -143,6 +144,33 @@ func init() {
 				}
 				t.Body = append(t.Body, tail)
 				ctx.Cell("long-value-last")
+			}
+			if i%80 == 2 {
+				// a loop of hundreds of iterations (around the sizes buffers are made of), last or followed by text, over
+				// a list or a range, at top level or inside a block: a renderer that collects the output of long loops
+				// still owes the writer's error to the caller
+				prog = g.Bundle(1, 1)
+				t := prog.B.Files[0].Templates[0]
+				n := []int{255, 256, 257, 300, 513}[ctx.Rng.Intn(5)]
+				var loop ref.Node
+				body := []ref.Node{&ref.Raw{Text: "<li>"}, &ref.Print{E: &ref.DataRef{Name: "it"}}, &ref.Raw{Text: "</li>"}}
+				if ctx.Rng.Bool() {
+					items := make([]ref.Expr, n)
+					for k := range items {
+						items[k] = &ref.Lit{V: ref.Int(int64(k))}
+					}
+					loop = &ref.Foreach{Var: "it", List: &ref.ListLit{Items: items}, Body: body, Keyword: "foreach"}
+				} else {
+					loop = &ref.Foreach{Var: "it", List: &ref.Call{Fn: "range", Args: []ref.Expr{&ref.Lit{V: ref.Int(int64(n))}}}, Body: body, Keyword: "for"}
+				}
+				if ctx.Rng.P(1, 3) {
+					loop = &ref.If{Conds: []ref.Expr{&ref.Lit{V: ref.Bool(true)}}, Bodies: [][]ref.Node{{loop}}}
+				}
+				t.Body = append(t.Body, &ref.Raw{Text: "<ul>"}, loop)
+				if ctx.Rng.Bool() {
+					t.Body = append(t.Body, &ref.Raw{Text: "</ul>"})
+				}
+				ctx.Cell("long-loop")
 			}
 			files := bundleSources(prog.B, ref.Layout{Multiline: i%4 == 1, CRLF: i%6 == 3})
 			segs, st := ref.Render(prog.B, prog.Entry, prog.Data, ref.RenderOpts{IJ: prog.IJ})
